@@ -93,6 +93,14 @@ Proof.
   rewrite nth_error_app2 by lia. rewrite Nat.sub_diag. reflexivity.
 Qed.
 
+(** ---- symbol metadata: a copied entry is never "missing" again *)
+Lemma norm_sym_idem : forall s, norm_sym (norm_sym s) = norm_sym s.
+Proof.
+  intros [[a e] m]. unfold norm_sym. destruct (N.eqb m 0) eqn:E; [reflexivity|]. rewrite E. reflexivity.
+Qed.
+Lemma map_norm_sym_idem : forall l, map norm_sym (map norm_sym l) = map norm_sym l.
+Proof. intros l. rewrite map_map. apply map_ext. apply norm_sym_idem. Qed.
+
 (** ---- builder invariant: document i of the builder decodes to entry i of the expected view, and the
     builder is itself a well-formed shard *)
 Definition doc_ok (b : shard) (d : sdoc) (e : srepo * ddoc) : Prop :=
@@ -183,7 +191,8 @@ Proof.
   - constructor; [|constructor]. exists r. simpl.
     assert (Hn : nth_error (sh_repos b) (length (sh_repos b) - 1) = Some r) by (apply last_opt_nth; auto).
     split; [exact Hn|]. split; auto. split; auto. split.
-    + unfold decode. simpl. rewrite Hn. rewrite (index_of_some _ _ _ Hsi). destruct Hlc as [Hl1 _]. rewrite Hl1. reflexivity.
+    + unfold decode. simpl. rewrite Hn. rewrite (index_of_some _ _ _ Hsi). destruct Hlc as [Hl1 _]. rewrite Hl1.
+      rewrite map_norm_sym_idem. reflexivity.
     + split; [apply Hlc|]. split; [exact Hm|]. split; auto. split; auto. eapply index_of_lt; eauto.
 Qed.
 
